@@ -32,3 +32,6 @@ run C14-c C14;         run C07-c C07
 run C16-c C16;         run C01-d C19 C01
 run C13-d C06 C13;     run C06-d C06
 run C02-d C02;         run C17-d C17
+run C03-c C06 C03;     run C05-d C05
+run C09-c C09 C14;     run C14-d C14
+run C11-c C19 C11;     run C12-c C02 C12
